@@ -3,6 +3,7 @@
 //   P <text>    parse_XTA(text, builder, newxta=true, S_EXPRESSION) -> kind tree | REJECT <msg> | SEMERR <msg> <tree>
 //   Q <text>    additionally: str() of the tree, re-parse, equal(), second str()   (used by C03)
 #include "common.hpp"
+#include "libparser.h"
 #include "utap/statement.h"
 
 using namespace UTAP;
@@ -74,7 +75,8 @@ static std::string classify_errors(Document& doc, std::string& sem)
     std::string syn;
     for (auto& er : doc.get_errors()) {
         if (er.msg.find("syntax_error") != std::string::npos || er.msg.find("$Unknown_symbol") != std::string::npos ||
-            er.msg.find("$Overflow") != std::string::npos || er.msg.find("$Comment_not_closed") != std::string::npos)
+            er.msg.find("$Overflow") != std::string::npos || er.msg.find("$Comment_not_closed") != std::string::npos ||
+            er.msg.find("$Identifier_is_too_long") != std::string::npos || er.msg.find("$String_literal_is_too_long") != std::string::npos)
             syn += (syn.empty() ? "" : " | ") + er.msg;
         else
             sem += (sem.empty() ? "" : " | ") + er.msg;
@@ -128,7 +130,9 @@ static std::string in_context(const std::string& ctx, const std::string& text)
 int main(int argc, char** argv)
 {
     Document doc;
-    if (!parse_XTA(DECLS, &doc, true) || doc.has_errors()) {
+    // a variable whose name has exactly the greatest length the lexer accepts (MAXLEN - 1 characters)
+    const std::string decls = "int " + std::string(MAXLEN - 1, 'n') + ";\n" + std::string(DECLS);
+    if (!parse_XTA(decls.c_str(), &doc, true) || doc.has_errors()) {
         std::cout << "SCOPE-ERROR\n";
         for (auto& e : doc.get_errors()) std::cout << e.msg << "\n";
         return 2;
@@ -154,7 +158,8 @@ int main(int argc, char** argv)
             std::string syn, sem;
             for (auto& er : doc.get_errors()) {
                 if (er.msg.find("syntax_error") != std::string::npos || er.msg.find("$Unknown_symbol") != std::string::npos ||
-                    er.msg.find("$Overflow") != std::string::npos || er.msg.find("$Comment_not_closed") != std::string::npos)
+                    er.msg.find("$Overflow") != std::string::npos || er.msg.find("$Comment_not_closed") != std::string::npos ||
+            er.msg.find("$Identifier_is_too_long") != std::string::npos || er.msg.find("$String_literal_is_too_long") != std::string::npos)
                     syn += (syn.empty() ? "" : " | ") + er.msg;
                 else
                     sem += (sem.empty() ? "" : " | ") + er.msg;
